@@ -93,19 +93,23 @@ def number(O, text):
     return val / scale
 def operand_missing(toks):
     """a binary operator (or a sign in binary position at the end) that has no operand on one side"""
+    # an empty pair of parentheses holds no operand: the rules below look at the tokens that remain when such pairs are taken out
+    # ('1 || ()' lacks an operand; '1 != () + 12' does not - the + is a sign and +12 the operand; what such a text is worth is not claimed)
+    toks = list(toks)
+    changed = True
+    while changed:
+        changed = False
+        for i in range(len(toks) - 1):
+            if toks[i] == ('op', '(') and toks[i + 1] == ('op', ')'):
+                del toks[i:i + 2]
+                changed = True
+                break
     n = len(toks)
     for i, t in enumerate(toks):
         if t[0] != 'op':
             continue
         prev = toks[i - 1] if i > 0 else None
         nxt = toks[i + 1] if i + 1 < n else None
-        # an empty pair of parentheses holds no operand
-        if t[1] in BINARY or t[1] in ('+', '-'):
-            if nxt == ('op', '(') and i + 2 < n and toks[i + 2] == ('op', ')'):
-                return True
-        if t[1] in BINARY:
-            if prev == ('op', ')') and i >= 2 and toks[i - 2] == ('op', '('):
-                return True
         if t[1] in BINARY:
             if prev is None or prev[0] == 'fn' or (prev[0] == 'op' and prev[1] != ')'):
                 return True          # nothing that ends an operand in front of it
